@@ -6,7 +6,7 @@ from pathlib import Path
 
 ROOT = Path(__file__).resolve().parent.parent
 REPO = Path(os.environ.get("MOLLI_REPO", "/repo"))
-EVID = ROOT / "evidence"
+EVID = Path(os.environ.get("VERIF_EVID") or (ROOT / "evidence"))
 REPLAYS = EVID / "replays"
 PY = str(ROOT / ".venv" / "bin" / "python")
 NCPU = int(os.environ.get("VERIF_JOBS", "16"))
